@@ -86,6 +86,9 @@ static void unsolicited_reset_state(struct cat_object *self)
 
 static cat_status is_busy(struct cat_object *self)
 {
+        if (self->unsolicited_fsm.state != CAT_UNSOLICITED_STATE_IDLE)
+                return CAT_STATUS_BUSY;
+
         return (self->state != CAT_STATE_IDLE) ? CAT_STATUS_BUSY : CAT_STATUS_OK;
 }
 
